@@ -446,29 +446,59 @@ def c15(out):
     return new
 
 
+def section(prop, fn, old_text, failures):
+    """Run one property's extractor. Its output is framed by markers; when it fails (the source no
+    longer has the expected shape) the previous block is kept, so that the Lean library still builds
+    for the OTHER properties, and the failure is reported for `prop` only."""
+    begin, end = f"-- BEGIN {prop}", f"-- END {prop}"
+    try:
+        block = []
+        r = fn(block)
+        if isinstance(r, list) and not block:
+            block = r
+        return [begin] + block + [end, ""]
+    except SystemExit as e:
+        failures[prop] = str(e)
+        m = re.search(re.escape(begin) + r"\n(.*?)" + re.escape(end), old_text or "", re.S)
+        return [begin] + (m.group(1).rstrip("\n").split("\n") if m else []) + [end, ""]
+
+
 def main():
+    old = open(OUT).read() if os.path.exists(OUT) else None
+    failures = {}
     out = ["/-! GENERATED by tools/extract.py from /repo on every run. Do not edit. -/", "namespace GrmVerif.Extracted", ""]
-    cp = src("lrpar/src/lib/cpctplus.rs")
-    out.append(f"def PARSE_AT_LEAST : Nat := {const(cp, 'PARSE_AT_LEAST', 'cpctplus.rs')}")
-    out.append(f"def TRY_PARSE_AT_MOST : Nat := {const(cp, 'TRY_PARSE_AT_MOST', 'cpctplus.rs')}")
-    st = src("lrtable/src/lib/statetable.rs")
-    for n in ("SHIFT", "REDUCE", "ACCEPT", "ERROR"):
-        out.append(f"def {n} : Nat := {const(st, n, 'statetable.rs')}")
-    out.append("")
-    c11(out)
-    c18(out)
-    out += c20_guards()
-    unaudited = c15(out)
+
+    def base(block):
+        cp = src("lrpar/src/lib/cpctplus.rs")
+        block.append(f"def PARSE_AT_LEAST : Nat := {const(cp, 'PARSE_AT_LEAST', 'cpctplus.rs')}")
+        block.append(f"def TRY_PARSE_AT_MOST : Nat := {const(cp, 'TRY_PARSE_AT_MOST', 'cpctplus.rs')}")
+        st = src("lrtable/src/lib/statetable.rs")
+        for n in ("SHIFT", "REDUCE", "ACCEPT", "ERROR"):
+            block.append(f"def {n} : Nat := {const(st, n, 'statetable.rs')}")
+
+    out += section("BASE", base, old, failures)
+    out += section("C11", c11, old, failures)
+    out += section("C18", c18, old, failures)
+    out += section("C20", lambda b: c20_guards(), old, failures)
+    unaudited = []
+
+    def c15w(block):
+        unaudited.extend(c15(block) or [])
+
+    out += section("C15", c15w, old, failures)
     out += ["end GrmVerif.Extracted", ""]
     new = "\n".join(out)
-    old = open(OUT).read() if os.path.exists(OUT) else None
     if old != new:
         open(OUT, "w").write(new)
-    # an unaudited site only concerns C15's tie; other properties' runs are not affected by it
-    if unaudited and (len(sys.argv) < 2 or sys.argv[1] == "C15"):
-        raise SystemExit("extract: C15: iteration over a randomly seeded HashMap/HashSet that is not in the audited list "
-                         "(tools/propcfg/C15.py AUDIT) - classify it (order-irrelevant / order-relevant) and model it: "
-                         + "; ".join(" | ".join(u) for u in unaudited[:4]))
+    if unaudited:
+        failures["C15"] = ("C15: iteration over a randomly seeded HashMap/HashSet that is not in the audited list "
+                           "(tools/propcfg/C15.py AUDIT) - classify it (order-irrelevant / order-relevant) and model it: "
+                           + "; ".join(" | ".join(u) for u in unaudited[:4]))
+    # a failed extractor is a broken tie for ITS property (and for every property when BASE fails)
+    want = sys.argv[1] if len(sys.argv) > 1 else None
+    for k, v in failures.items():
+        if want is None or k == want or k == "BASE":
+            raise SystemExit(f"extract [{k}]: {v}")
 
 
 if __name__ == "__main__":
